@@ -251,9 +251,9 @@ def call_method(env, inst, method):
         return _canon_exc(exc)
 
 
-def do_characterize(env, cid, rid):
+def do_characterize(env, cid, rid, fresh=False):
     try:
-        ent = env.cls(cid).characterize(env.rec(rid))
+        ent = env.cls(cid).characterize(env.rec(rid, fresh))
         return {"type": env.cid_of(type(ent))}
     except Exception as exc:
         return _canon_exc(exc)
@@ -336,7 +336,7 @@ def _run_child(case):
             inst = env.handles.get(op["h"])
             res = {"skip": "no-handle"} if inst is None else call_method(env, inst, op["method"])
         elif k == "characterize":
-            res = do_characterize(env, op["cls"], op["rec"])
+            res = do_characterize(env, op["cls"], op["rec"], bool(op.get("fresh")))
         elif k == "structure":
             res = do_structure(env, op["cls"])
         elif k == "prime_registry":
@@ -635,33 +635,53 @@ def gen_case(spec):
             n = W["rmeta"][r]["len"]
             k = g.choice([1, 2, 3, 5, 7, 11, n // 2, n - 1, n - 4, g.randrange(n)])
             recs.append("%s@%d" % (r, k % n or 1))
-    # synthetic members / near-misses for generic classes
+    # synthetic members / near-misses for generic classes; `motifs` are short scripted
+    # sequences woven into the random history (each needs several steps to line up)
     synthetic = []
+    motifs = []
     for c in pool:
         if cmeta[c]["kind"] == "generic" and g.random() < 0.7:
             geom = dna.geometry(cmeta[c]["cutter"])
-            ovs = dna.overhangs(g, geom["ov"], 2)
-            sid = "syn:%d" % len(synthetic)
-            if "Vector" in cmeta[c]["base"]:
-                seq, _ = dna.make_vector(g, geom, ovs[0], ovs[1], g.randint(4, 20), g.randint(10, 40))
-            else:
-                seq, _ = dna.make_module(g, geom, ovs[0], ovs[1], g.randint(2, 20), g.randint(6, 40))
-            c_ = g.random()
-            if c_ < 0.25:  # near miss: corrupt one site letter
-                i = seq.find(geom["site"])
-                seq = seq[:i] + ("A" if seq[i] != "A" else "C") + seq[i + 1:]
-            elif c_ < 0.5:  # right structure plus an extra (illegal) site inside the matched region
-                i = seq.find(geom["site"]) + len(geom["site"]) + geom["gap"] + geom["ov"] + 1
-                seq = seq[:i] + g.choice([geom["site"], dna.rc(geom["site"])]) + dna.rand_dna(g, geom["gap"] + geom["ov"] + 2) + seq[i:]
-            seq = dna.rotate_right(seq, g.randrange(len(seq)))
-            topo = "circular" if g.random() < 0.85 else "linear"
-            synthetic.append({"id": sid, "seq": seq, "topology": topo})
-            recs.append(sid)
-            if g.random() < 0.2:
-                # a twin with the same letters and the other topology (an export of the same plasmid as a linear file)
-                tid = "syn:%d" % len(synthetic)
-                synthetic.append({"id": tid, "seq": seq, "topology": "linear" if topo == "circular" else "circular"})
-                recs.append(tid)
+            vectorish = "Vector" in cmeta[c]["base"]
+            made = []
+            for variant in ["valid"] + g.sample(["valid", "near-miss", "illegal-site", "illegal-site"], g.randint(0, 2)):
+                ovs = dna.overhangs(g, geom["ov"], 2)
+                sid = "syn:%d" % len(synthetic)
+                if vectorish:
+                    seq, _ = dna.make_vector(g, geom, ovs[0], ovs[1], g.randint(4, 20), g.randint(10, 40))
+                else:
+                    seq, _ = dna.make_module(g, geom, ovs[0], ovs[1], g.randint(2, 20), g.randint(6, 40))
+                if variant == "near-miss":  # corrupt one site letter
+                    i = seq.find(geom["site"])
+                    seq = seq[:i] + ("A" if seq[i] != "A" else "C") + seq[i + 1:]
+                elif variant == "illegal-site":  # right structure plus an extra site inside the matched region:
+                    # two candidate match starts, the leftmost one is illegal
+                    i = seq.find(geom["site"]) + len(geom["site"]) + geom["gap"] + geom["ov"] + 1
+                    seq = seq[:i] + g.choice([geom["site"], geom["site"], dna.rc(geom["site"])]) + dna.rand_dna(g, geom["gap"] + geom["ov"] + 2) + seq[i:]
+                seq = dna.rotate_right(seq, g.randrange(len(seq)))
+                topo = "circular" if g.random() < 0.85 else "linear"
+                synthetic.append({"id": sid, "seq": seq, "topology": topo, "variant": variant})
+                recs.append(sid)
+                made.append(sid)
+                if g.random() < 0.25:
+                    # a twin with the same letters and the other topology (the same plasmid exported as a linear file)
+                    tid = "syn:%d" % len(synthetic)
+                    synthetic.append({"id": tid, "seq": seq, "topology": "linear" if topo == "circular" else "circular", "variant": variant + "-twin"})
+                    recs.append(tid)
+                    if g.random() < 0.7:
+                        motifs.append([("new", c, sid), ("call", "is_valid"), ("new", c, tid), ("call", "is_valid"), ("call", "overhang_start")])
+                if topo == "linear" and g.random() < 0.6:
+                    # a class of the other role touches the record first, then the class it was built for
+                    other = [x for x in pool if cmeta[x]["kind"] == "generic" and cmeta[x]["cutter"] == cmeta[c]["cutter"] and ("Vector" in cmeta[x]["base"]) != vectorish]
+                    other = other or [x for x in W["corder"] if cmeta[x]["kind"] == "generic" and cmeta[x]["cutter"] == cmeta[c]["cutter"] and ("Vector" in cmeta[x]["base"]) != vectorish]
+                    if other:
+                        motifs.append([("new", g.choice(other), sid), ("call", "is_valid"), ("new", c, sid), ("call", "is_valid")])
+            if len(made) > 1 and g.random() < 0.7:
+                # the same class matches several plasmids at different offsets, one after the other
+                m_ = []
+                for sid in made:
+                    m_ += [("new", c, sid), ("call", "is_valid"), ("call", "overhang_start")]
+                motifs.append(m_)
 
     n_clients = g.choice([1, 2, 2, 3])
     n_ops = g.randint(12, 60)
@@ -669,6 +689,7 @@ def gen_case(spec):
     handles = {c: [] for c in range(n_clients)}  # client -> [(h, cls, rec)]
     defined = []
     nh = {c: 10 for c in range(n_clients)}
+    fresh_handles = set()
     last_drop = {}
     hints = {}
     name_pool = ["UserPartA", "UserPartB", "UserPartA"]  # repeated name on purpose
@@ -698,11 +719,50 @@ def gen_case(spec):
         return g.choice(cands)
 
     guard = 0
+    g.shuffle(motifs)
     while len(ops) < n_ops and guard < 20 * n_ops:
         guard += 1
         client = sch.randrange(n_clients)
         hs = handles[client]
         x = g.random()
+        if motifs and g.random() < 0.12:
+            cur = None
+            for step in motifs.pop():
+                if step[0] == "new":
+                    nh[client] += 1
+                    cur = "c%dh%d" % (client, nh[client])
+                    add(client, {"op": "new", "h": cur, "cls": step[1], "rec": step[2]})
+                    hs.append((cur, step[1], step[2]))
+                elif cur:
+                    add(client, {"op": "call", "h": cur, "method": step[1]})
+            continue
+        if g.random() < 0.06:
+            # a record is created, searched and released, and a new record of the same length
+            # is created and searched next - consecutive steps of one client
+            base_r = g.choice([r_ for r_ in recs if r_ in W["rmeta"]] or [None])
+            if base_r:
+                acc_ = W["accepts"] or {}
+                cands_ = [c_ for c_ in pool if c_ in acc_ and base_r in acc_[c_]] or pool
+                cls_ = g.choice(cands_)
+                n_ = W["rmeta"][base_r]["len"]
+                nh[client] += 2
+                h1, h2 = "c%dh%d" % (client, nh[client] - 1), "c%dh%d" % (client, nh[client])
+                if g.random() < 0.5:
+                    add(client, {"op": "new", "h": h1, "cls": cls_, "rec": "%s@%d" % (base_r, g.randrange(1, n_)), "fresh": True})
+                    add(client, {"op": "call", "h": h1, "method": "is_valid"})
+                    add(client, {"op": "drop", "h": h1})
+                else:
+                    # the released record dies last when nothing wraps it any more: a failed
+                    # characterisation leaves no entity behind
+                    foreign = [b for b in W["abstract_bases"] if not any(base_r in acc_.get(c2, ()) for c2 in W["corder"] if b in W["ancestors"].get(c2, ()))]
+                    add(client, {"op": "characterize", "cls": g.choice(foreign or W["abstract_bases"]), "rec": "%s@%d" % (base_r, g.randrange(1, n_)), "fresh": True})
+                rid2 = "%s@%d" % (base_r, g.randrange(1, n_))
+                add(client, {"op": "new", "h": h2, "cls": cls_, "rec": rid2, "fresh": True})
+                add(client, {"op": "call", "h": h2, "method": "is_valid"})
+                add(client, {"op": "call", "h": h2, "method": g.choice(["overhang_start", "overhang_end", "target"])})
+                hs.append((h2, cls_, rid2))
+                fresh_handles.add(h2)
+            continue
         if x < 0.28 or not hs:
             cid = pick_class()
             # bias: a record that separates this class from one asked before
@@ -734,6 +794,7 @@ def gen_case(spec):
             op_new = {"op": "new", "h": h, "cls": cid, "rec": rid}
             if reuse or g.random() < 0.3:
                 op_new["fresh"] = True
+                fresh_handles.add(h)
             add(client, op_new)
             hs.append((h, cid, rid))
         elif x < 0.33 and len(hs) > 1:
